@@ -92,6 +92,12 @@ def generate(tier, seed, ctx):
     os.makedirs(ctx['work'], exist_ok=True)
     json.dump(sj, open(path, 'w'))
     V_ENV['SCHEMA_FILE'] = path
+    # schemas objects are independent of one another: an earlier object whose public parsing settings were changed (as the
+    # repository's own tests do) has no bearing on the one used from here on
+    earlier = TlGenerator.with_default_schemas().generate()
+    earlier.untouchables['adnl.message.query'] = {'query'}
+    earlier.untouchables['adnl.message.answer'] = {'answer'}
+    earlier._auto_deserialize = False
     tl = TlGenerator.with_default_schemas().generate()
     g = tlkit.Gen(db, rng)
     out = []
